@@ -1,6 +1,7 @@
 import Srtla.Model.Conn
 import Srtla.Lemmas.Log
 import Srtla.Lemmas.Conn
+import Srtla.Lemmas.SysDirKeys
 /-!
 # C02 — per-link in-flight count equals packets sent and not yet retired
 
@@ -574,5 +575,619 @@ example :
     ((evs.foldl step s0).links.map (·.inFlight)) = [1, 0] ∧
     (((evs ++ [Ev.cumAck 6 50, Ev.cumAck 9 51]).foldl step s0).links.map (·.inFlight)) = [0, 0] := by
   decide
+
+/-! # Round 3 — C02 at shell level: the sets along `Sys.step` / `Sys.run`
+
+`C02_refines` is over the fan-out layer's own event list.  Here the same set machine is tied to the sender
+shell (`Model/Sys.lean`, run line by line against the real event-loop arms by component `sys`):
+
+* per link (`SysDir.KOp`, `SysDir.kstep`: a send inserts once, a cumulative ACK removes everything at or below
+  it, a retirement removes one number, a reset empties): `C02_shell_refines_event` — EVERY event constructor
+  acts on EVERY link's key list as a history of that machine, using only the set operations the event allows
+  for that link (`SysDir.kopOk (SysDir.evOps s e j)`, spelled out by `C02_shell_event_kinds`), and
+  `in_flight = |set|`, no duplicates, afterwards; `C02_shell_refines` — the run form by induction, from any
+  invariant state (in particular the initial state);
+* **sends are registered when a batch is DRAINED, not when a datagram is queued**: the only shell operation
+  that maps to `send` is `take_batch` (threshold flush inside a client event, periodic `flush` event);
+  `C02_shell_flush_exact` gives the periodic flush exactly; a queued-but-not-yet-drained packet is NOT in the
+  set and NOT counted in `in_flight_packets`;
+* which link a retirement hits is a cross-link question: `C02_shell_uplink_refines` — an `uplink` event is
+  EXACTLY the fold of C02's global spec machine `specStep` (arrival link first / first other holder for SRTLA
+  ACKs, the tracker's remembered carrier / first holder for NAKs, every link for cumulative ACKs) over the
+  events the datagram decodes to. -/
+
+section shellC02
+open Srtla Srtla.Link Srtla.SysDir
+set_option linter.unusedSectionVars false
+variable {F : Type} [Scalar F]
+
+/-- The accounting invariant of the shell, literally the body of `SysInv` (`Props/SysLevel.lean`; holds of the
+initial state and along every run: `SysInv_init`, `SysInv_run`). -/
+def ShellInv (s : Sys.Sys F) : Prop :=
+  ∀ l ∈ s.links, LogInv l.core ∧ 1000 ≤ l.core.window ∧ l.core.window ≤ 60000 ∧ 0 ≤ l.core.inFlight ∧
+    ∀ it ∈ l.queue, ∀ sq, it.2.1 = some sq → sq < 2147483648
+
+theorem shellInv_all {s : Sys.Sys F} (h : ShellInv s) : SysInv.All SysInv.LinkInv s.links := by
+  intro l hl
+  obtain ⟨a, b, c, d, f⟩ := h l hl
+  exact ⟨a, b, c, d, f⟩
+
+theorem shellInv_of_all {s : Sys.Sys F} (h : SysInv.All SysInv.LinkInv s.links) : ShellInv s := by
+  intro l hl
+  obtain ⟨a, b, c, d, f⟩ := h l hl
+  exact ⟨a, b, c, d, f⟩
+
+theorem ShellInv.step {s : Sys.Sys F} (h : ShellInv s) (e : Sys.Ev) : ShellInv (Sys.step s e).1 :=
+  shellInv_of_all (SysInv.linkInv_step s e (shellInv_all h))
+
+/-- **One event, one link** (every constructor of `Sys.Ev`, every index `j`): from an invariant state, the key
+list of link `j` after the event is the fold of the per-link set machine over a list of set operations that
+the event allows for that link; afterwards `in_flight_packets` is the size of the set (never negative) and the
+set has no duplicates. -/
+theorem C02_shell_refines_event (s : Sys.Sys F) (e : Sys.Ev) (hinv : ShellInv s) (j : Nat) (l : FLink F)
+    (hl : s.links[j]? = some l) :
+    ∃ l', (Sys.step s e).1.links[j]? = some l' ∧
+      ∃ kops : List KOp, (∀ k ∈ kops, kopOk (evOps s e j) k) ∧
+        l'.core.keys = kops.foldl kstep l.core.keys ∧
+        l'.core.inFlight = (l'.core.keys.length : Int) ∧ l'.core.keys.Nodup := by
+  obtain ⟨l', hl', hrun⟩ := (step_run s e).2 j l hl
+  obtain ⟨hi, kops, h1, h2⟩ := keys_run hrun (shellInv_all hinv l (List.mem_of_getElem? hl))
+  exact ⟨l', hl', kops, h1, h2, hi.log.count, hi.log.nodup⟩
+
+/-- **Which set operations each event constructor can perform on link `j`** (what `kopOk (evOps s e j)` means):
+* client datagram: only sends (a batch drained at the threshold) and a reset (tear-down after the failed send);
+* periodic flush: only sends;
+* housekeeping: only a reset (reconnect);
+* `setCfg` / `crit` / `failNext`: nothing;
+* uplink datagram, by type code: SRT ACK 0x8002 — only cumulative ACKs; SRT NAK 0x8003 and SRTLA ACK 0x9100 —
+  only single retirements; REG3 0x9202 and REG_ERR 0x9210 — only a reset, and only on the ARRIVAL link;
+  any other type (keepalive, REG_NGP, REG2, data, unknown) and datagrams too short for a type code — nothing. -/
+theorem C02_shell_event_kinds (s : Sys.Sys F) (e : Sys.Ev) (j : Nat) (k : KOp) (hk : kopOk (evOps s e j) k) :
+    match e with
+    | .client _ _ => (∃ q, k = .send q) ∨ k = .reset
+    | .flush _ => ∃ q, k = .send q
+    | .hk _ => k = .reset
+    | .setCfg _ => False
+    | .crit _ => False
+    | .failNext _ => False
+    | .uplink _ cid data =>
+        ∃ pt, Codec.getPacketTypeS data = some pt ∧
+          ((pt = 0x8002 ∧ ∃ a, k = .cumAck a) ∨ ((pt = 0x8003 ∨ pt = 0x9100) ∧ ∃ q, k = .retire q) ∨
+           ((pt = 0x9202 ∨ pt = 0x9210) ∧ k = .reset ∧ s.links.findIdx? (·.core.connId == cid) = some j)) := by
+  cases e with
+  | client now pkt =>
+    cases k with
+    | send q => exact .inl ⟨q, rfl⟩
+    | reset => exact .inr rfl
+    | cumAck a =>
+      have h : clientOps .srtAck := hk
+      unfold clientOps at h
+      rcases h with h | h | h | h | h <;> cases h
+    | retire q =>
+      have h : clientOps .sack ∨ clientOps .nak := hk
+      unfold clientOps at h
+      rcases h with (h | h | h | h | h) | (h | h | h | h | h) <;> cases h
+  | flush now =>
+    cases k with
+    | send q => exact ⟨q, rfl⟩
+    | reset =>
+      have h : (Op.mark = Op.take) ∨ (Op.reconnect = Op.take) ∨ (Op.reg3 = Op.take) := hk
+      rcases h with h | h | h <;> cases h
+    | cumAck a =>
+      have h : Op.srtAck = Op.take := hk
+      cases h
+    | retire q =>
+      have h : (Op.sack = Op.take) ∨ (Op.nak = Op.take) := hk
+      rcases h with h | h <;> cases h
+  | hk now =>
+    cases k with
+    | send q =>
+      have h : hkOps s.cfg.classic .take := hk
+      unfold hkOps at h
+      rcases h with h | h | h | h | h | ⟨h, -⟩ <;> cases h
+    | reset => rfl
+    | cumAck a =>
+      have h : hkOps s.cfg.classic .srtAck := hk
+      unfold hkOps at h
+      rcases h with h | h | h | h | h | ⟨h, -⟩ <;> cases h
+    | retire q =>
+      have h : hkOps s.cfg.classic .sack ∨ hkOps s.cfg.classic .nak := hk
+      unfold hkOps at h
+      rcases h with (h | h | h | h | h | ⟨h, -⟩) | (h | h | h | h | h | ⟨h, -⟩) <;> cases h
+  | setCfg cfg => cases k <;> first | exact hk | (rcases hk with h | h | h <;> exact h) | (rcases hk with h | h <;> exact h)
+  | crit d => cases k <;> first | exact hk | (rcases hk with h | h | h <;> exact h) | (rcases hk with h | h <;> exact h)
+  | failNext c => cases k <;> first | exact hk | (rcases hk with h | h | h <;> exact h) | (rcases hk with h | h <;> exact h)
+  | uplink now cid data =>
+    have arr : ∀ {p : Prop}, ((s.links.findIdx? (·.core.connId == cid) == some j) = true ∧ p) →
+        s.links.findIdx? (·.core.connId == cid) = some j := fun h => by simpa using h.1
+    cases k with
+    | send q =>
+      obtain ⟨pt, hpt, h⟩ : evOps s (.uplink now cid data) j .take := hk
+      simp [upOps, fanOps, arrOps] at h
+    | cumAck a =>
+      obtain ⟨pt, hpt, h⟩ : evOps s (.uplink now cid data) j .srtAck := hk
+      refine ⟨pt, hpt, .inl ⟨?_, a, rfl⟩⟩
+      simpa [upOps, fanOps, arrOps] using h
+    | retire q =>
+      rcases (hk : evOps s (.uplink now cid data) j .sack ∨ evOps s (.uplink now cid data) j .nak) with
+        ⟨pt, hpt, h⟩ | ⟨pt, hpt, h⟩
+      · refine ⟨pt, hpt, .inr (.inl ⟨.inr ?_, q, rfl⟩)⟩
+        simpa [upOps, fanOps, arrOps] using h
+      · refine ⟨pt, hpt, .inr (.inl ⟨.inl ?_, q, rfl⟩)⟩
+        simpa [upOps, fanOps, arrOps] using h
+    | reset =>
+      rcases (hk : evOps s (.uplink now cid data) j .mark ∨ evOps s (.uplink now cid data) j .reconnect ∨
+          evOps s (.uplink now cid data) j .reg3) with ⟨pt, hpt, h⟩ | ⟨pt, hpt, h⟩ | ⟨pt, hpt, h⟩
+      · have h' : (s.links.findIdx? (·.core.connId == cid) == some j) = true ∧ pt = 0x9210 := by
+          simpa [upOps, fanOps, arrOps] using h
+        exact ⟨pt, hpt, .inr (.inr ⟨.inr h'.2, rfl, arr h'⟩)⟩
+      · simp [upOps, fanOps, arrOps] at h
+      · have h' : (s.links.findIdx? (·.core.connId == cid) == some j) = true ∧ pt = 0x9202 := by
+          simpa [upOps, fanOps, arrOps] using h
+        exact ⟨pt, hpt, .inr (.inr ⟨.inl h'.2, rfl, arr h'⟩)⟩
+
+/-- The shell-visible history of link `j` along a run: one block of set operations per event, each block
+allowed by that event in the state the run had reached (`kopOk (evOps s e j)`, see `C02_shell_event_kinds`). -/
+inductive RunHist : Sys.Sys F → List Sys.Ev → Nat → List KOp → Prop
+  | nil (s : Sys.Sys F) (j : Nat) : RunHist s [] j []
+  | cons {s : Sys.Sys F} {e : Sys.Ev} {evs : List Sys.Ev} {j : Nat} {ks rest : List KOp} :
+      (∀ k ∈ ks, kopOk (evOps s e j) k) → RunHist (Sys.step s e).1 evs j rest → RunHist s (e :: evs) j (ks ++ rest)
+
+/-- **C02 at shell level, every run.**  From any invariant state (`ShellInv` = `SysInv`; the initial state), after
+EVERY finite list of shell events — client datagrams (data, retransmissions, control), uplink datagrams of any
+type and content, periodic flushes, housekeeping ticks, configuration changes, injected send failures — for
+every link `j`: its key list is the fold of the per-link set machine over a shell-visible history (`RunHist`:
+sends exactly where batches were drained — NOT where datagrams were queued —, cumulative ACKs, single
+retirements by SRTLA ACK / charged NAK, resets), its `in_flight_packets` is the size of that set (never
+negative), and the set has no duplicates. -/
+theorem C02_shell_refines (s : Sys.Sys F) (evs : List Sys.Ev) (hinv : ShellInv s) (j : Nat) (l : FLink F)
+    (hl : s.links[j]? = some l) :
+    ∃ l' hist, (Sys.run s evs).1.links[j]? = some l' ∧ RunHist s evs j hist ∧
+      l'.core.keys = hist.foldl kstep l.core.keys ∧
+      l'.core.inFlight = (l'.core.keys.length : Int) ∧ 0 ≤ l'.core.inFlight ∧ l'.core.keys.Nodup := by
+  induction evs generalizing s l with
+  | nil =>
+    obtain ⟨hi, -, -, -, -⟩ := hinv l (List.mem_of_getElem? hl)
+    exact ⟨l, [], hl, .nil s j, rfl, hi.count, by rw [hi.count]; exact Int.natCast_nonneg _, hi.nodup⟩
+  | cons e evs ih =>
+    obtain ⟨l1, hl1, kops, hk1, hk2, -, -⟩ := C02_shell_refines_event s e hinv j l hl
+    obtain ⟨l', hist, h1, h2, h3, h4, h5, h6⟩ := ih (Sys.step s e).1 (hinv.step e) l1 hl1
+    refine ⟨l', kops ++ hist, h1, .cons hk1 h2, ?_, h4, h5, h6⟩
+    rw [List.foldl_append, ← hk2]
+    exact h3
+
+/-! ### The periodic flush, exactly -/
+
+theorem flushGo_links (now : Nat) (ls : List (FLink F)) (fn : List Nat) :
+    (Sys.flushGo now ls fn).1 =
+      ls.map fun l => if l.needsBatchFlush now || !l.queue.isEmpty then (l.takeBatch now).1 else l := by
+  induction ls generalizing fn with
+  | nil => rfl
+  | cons l rest ih =>
+    rw [Sys.flushGo]
+    split
+    · rename_i hc
+      dsimp only
+      rw [List.map_cons, if_pos hc, ih, (Hk.sendBatch_cases l now fn).1]
+    · rename_i hc
+      dsimp only
+      rw [List.map_cons, if_neg hc, ih]
+
+/-- **The periodic flush registers exactly what is queued**: after a `flush` event EVERY link's key list is its
+old key list with the sequence numbers waiting in its batch queue inserted (once each, queue order), and its
+queue is empty — whether or not the send succeeds (a failed periodic flush only warns: the drained packets stay
+counted in flight until they are ACKed, NAKed or the link is reset). -/
+theorem C02_shell_flush_exact (s : Sys.Sys F) (now j : Nat) (l : FLink F) (hl : s.links[j]? = some l) :
+    ∃ l', (Sys.step s (.flush now)).1.links[j]? = some l' ∧
+      l'.core.keys = (batchSeqs l.queue).foldl specRegister l.core.keys ∧ l'.queue = [] := by
+  have key : ∀ l : FLink F,
+      (if l.needsBatchFlush now || !l.queue.isEmpty then (l.takeBatch now).1 else l).core.keys =
+        (batchSeqs l.queue).foldl specRegister l.core.keys ∧
+      (if l.needsBatchFlush now || !l.queue.isEmpty then (l.takeBatch now).1 else l).queue = [] := by
+    intro l
+    split
+    · refine ⟨keys_takeBatch l now, ?_⟩
+      rw [Hk.takeBatch_eq]
+      split
+      · rename_i hq; simpa using hq
+      · rfl
+    · rename_i hc
+      have hq : l.queue = [] := by
+        simp only [Bool.or_eq_true, Bool.not_eq_true', not_or] at hc
+        simpa using hc.2
+      rw [hq]
+      exact ⟨rfl, rfl⟩
+  show ∃ l', (Sys.flushAllBatches s now).1.links[j]? = some l' ∧ _
+  unfold Sys.flushAllBatches
+  split
+  · rename_i hany
+    have hq : l.queue = [] := by
+      have := hany
+      simp only [Bool.not_eq_true', List.any_eq_false] at this
+      have hl' := this l (List.mem_of_getElem? hl)
+      simp only [Bool.or_eq_true, Bool.not_eq_true', not_or] at hl'
+      simpa using hl'.1
+    refine ⟨l, hl, ?_, hq⟩
+    rw [hq]
+    rfl
+  · dsimp only
+    rw [flushGo_links, List.getElem?_map, hl]
+    exact ⟨_, rfl, (key l).1, (key l).2⟩
+
+/-! ### An uplink datagram, exactly, in C02's global spec machine -/
+
+/-- The state of the fan-out layer inside a shell state: the link cores and the sequence tracker. -/
+def toSt (s : Sys.Sys F) : St := { links := Sys.cores s.links, trk := s.trk }
+
+/-- The abstraction of a shell state: conn ids, key lists, tracker. -/
+def absSys (s : Sys.Sys F) : Spec := absOf (toSt s)
+
+/-- What the arm of `process_uplink_packet` does to the ARRIVAL link's set, by type code: REG3 and REG_ERR
+empty it; every other arm leaves it alone. -/
+def armTrace (pt idx now : Nat) : List Ev :=
+  if pt = 0x9202 then [.reset idx .reg3 now] else if pt = 0x9210 then [.reset idx .recovery now] else []
+
+/-- The fan-out part: cumulative ACKs, then SRTLA ACKs, then NAKs (the order of `process_connection_events`). -/
+def fanTrace (classic : Bool) (idx now : Nat) (inc : Sys.Incoming) : List Ev :=
+  inc.acks.map (fun a => Ev.cumAck a now) ++ inc.sacks.map (fun q => Ev.srtlaAck idx q classic now) ++
+    inc.naks.map (fun n => Ev.nak n now)
+
+/-- The fan-out layer's events an uplink datagram arriving on link `idx` decodes to (type codes as literals):
+REG3 → a reset of the arrival link; REG_ERR → a reset of the arrival link; SRT ACK → one cumulative ACK (if the
+datagram carries one); SRT NAK → one NAK per listed number (ranges expanded, duplicates kept, list order);
+SRTLA ACK → one per-packet ACK per listed number, arriving on `idx`; anything else → nothing. -/
+def uplinkTrace (classic : Bool) (idx now : Nat) (data : Sys.Bytes) : List Ev :=
+  match Codec.getPacketTypeS data with
+  | none => []
+  | some pt =>
+    if pt = 0x9202 then [.reset idx .reg3 now]
+    else if pt = 0x9210 then [.reset idx .recovery now]
+    else if pt = 0x8002 then
+      (match Codec.unChk none (Codec.parseSrtAck data) with
+       | some a => [.cumAck a now]
+       | none => [])
+    else if pt = 0x8003 then (Codec.unChk [] (Codec.parseSrtNak data)).map fun n => .nak n now
+    else if pt = 0x9100 then (Codec.unChk [] (Codec.parseSrtlaAck data)).map fun q => .srtlaAck idx q classic now
+    else []
+
+/-- What the three loops of `process_connection_events` do to a list of cores. -/
+def fanCores (classic : Bool) (trk : Tracker) (idx now : Nat) (inc : Sys.Incoming) (cs : Links) : Links :=
+  inc.naks.foldl (fun cs n => (attributeNak cs trk n now).1)
+    (inc.sacks.foldl (fun cs a => evSrtlaAck cs idx (toI32 a) classic now)
+      (inc.acks.foldl (fun cs a => evSrtAck cs (toI32 a) now) cs))
+
+theorem foldl_cumAck (now : Nat) (as : List Nat) (st : St) :
+    (as.map fun a => Ev.cumAck a now).foldl step st =
+      { st with links := as.foldl (fun cs a => evSrtAck cs (toI32 a) now) st.links } := by
+  induction as generalizing st with
+  | nil => rfl
+  | cons a as ih => rw [List.map_cons, List.foldl_cons, ih]; rfl
+
+theorem foldl_srtlaAck (classic : Bool) (idx now : Nat) (as : List Nat) (st : St) :
+    (as.map fun q => Ev.srtlaAck idx q classic now).foldl step st =
+      { st with links := as.foldl (fun cs a => evSrtlaAck cs idx (toI32 a) classic now) st.links } := by
+  induction as generalizing st with
+  | nil => rfl
+  | cons a as ih => rw [List.map_cons, List.foldl_cons, ih]; rfl
+
+theorem foldl_nak (now : Nat) (ns : List Nat) (st : St) :
+    (ns.map fun n => Ev.nak n now).foldl step st =
+      { st with links := ns.foldl (fun cs n => (attributeNak cs st.trk n now).1) st.links } := by
+  induction ns generalizing st with
+  | nil => rfl
+  | cons n ns ih => rw [List.map_cons, List.foldl_cons, ih]; rfl
+
+/-- The fold of the fan-out layer's `step` over `fanTrace` is `fanCores` on the links. -/
+theorem fanTrace_fold (classic : Bool) (idx now : Nat) (inc : Sys.Incoming) (st : St) :
+    (fanTrace classic idx now inc).foldl step st = { st with links := fanCores classic st.trk idx now inc st.links } := by
+  unfold fanTrace fanCores
+  rw [List.foldl_append, List.foldl_append, foldl_cumAck, foldl_srtlaAck, foldl_nak]
+
+theorem fold_len (evs : List Ev) (st : St) : (evs.foldl step st).links.length = st.links.length := by
+  induction evs generalizing st with
+  | nil => rfl
+  | cons e evs ih =>
+    rw [List.foldl_cons, ih]
+    have := congrArg List.length (C02_ids_constant st e)
+    simpa [idsOf] using this
+
+theorem fanCores_length (classic : Bool) (trk : Tracker) (idx now : Nat) (inc : Sys.Incoming) (cs : Links) :
+    (fanCores classic trk idx now inc cs).length = cs.length := by
+  have h := fold_len (fanTrace classic idx now inc) { links := cs, trk := trk }
+  rw [fanTrace_fold] at h
+  exact h
+
+omit [Scalar F] in
+theorem cores_withCores (ls : List (FLink F)) (cs : Links) (h : cs.length = ls.length) :
+    Sys.cores (Sys.withCores ls cs) = cs := by
+  unfold Sys.cores Sys.withCores
+  induction ls generalizing cs with
+  | nil => cases cs with
+    | nil => rfl
+    | cons c cs => simp at h
+  | cons l rest ih =>
+    cases cs with
+    | nil => simp at h
+    | cons c cs =>
+      simp only [List.zip_cons_cons, List.map_cons]
+      rw [ih cs (by simpa using h)]
+
+theorem cores_map_srtAck (ls : List (FLink F)) (x : Int) (now : Nat) :
+    Sys.cores (ls.map fun l => l.srtAck x now) = evSrtAck (Sys.cores ls) x now := by
+  unfold Sys.cores evSrtAck
+  rw [List.map_map, List.map_map]
+  apply List.map_congr_left
+  intro l _
+  exact Uplink.core_srtAck l x now
+
+theorem cores_foldl_srtAck (as : List Nat) (ls : List (FLink F)) (now : Nat) :
+    Sys.cores (as.foldl (fun ls a => ls.map fun l => l.srtAck (toI32 a) now) ls) =
+      as.foldl (fun cs a => evSrtAck cs (toI32 a) now) (Sys.cores ls) := by
+  induction as generalizing ls with
+  | nil => rfl
+  | cons a as ih => rw [List.foldl_cons, List.foldl_cons, ih, cores_map_srtAck]
+
+/-- `process_connection_events` on the cores is the fold of the fan-out layer's `step` over `fanTrace`. -/
+theorem pCE_toSt (s : Sys.Sys F) (idx : Nat) (inc : Sys.Incoming) (now : Nat) :
+    toSt (Sys.processConnectionEvents s idx inc now).1 = (fanTrace s.cfg.classic idx now inc).foldl step (toSt s) := by
+  rw [fanTrace_fold]
+  have hfan : Sys.cores (Sys.processConnectionEvents s idx inc now).1.links =
+      fanCores s.cfg.classic s.trk idx now inc (Sys.cores s.links) := by
+    have h0 : fanCores s.cfg.classic s.trk idx now inc (Sys.cores s.links) =
+        inc.naks.foldl (fun cs n => (attributeNak cs s.trk n now).1)
+          (inc.sacks.foldl (fun cs a => evSrtlaAck cs idx (toI32 a) s.cfg.classic now)
+            (Sys.cores (inc.acks.foldl (fun ls a => ls.map fun l => l.srtAck (toI32 a) now) s.links))) := by
+      unfold fanCores
+      rw [cores_foldl_srtAck]
+    rw [h0]
+    apply cores_withCores
+    have h1 := fanCores_length s.cfg.classic s.trk idx now { inc with acks := [] }
+      (Sys.cores (inc.acks.foldl (fun ls a => ls.map fun l => l.srtAck (toI32 a) now) s.links))
+    unfold fanCores at h1
+    simp only [List.foldl_nil] at h1
+    rw [h1]
+    simp [Sys.cores]
+  unfold toSt
+  rw [hfan]
+  rfl
+
+/-- Replacing the arrival link by a record with the same conn id: conn ids kept, its key list replaced. -/
+theorem abs_setAt (ls : List (FLink F)) (trk : Tracker) (idx : Nat) (l0 a : FLink F) (hl0 : ls[idx]? = some l0)
+    (hid : a.core.connId = l0.core.connId) :
+    absOf { links := Sys.cores (Sys.setAt ls idx a), trk := trk } =
+      { ids := (Sys.cores ls).map (·.connId),
+        keys := specAt (keysOf (Sys.cores ls)) idx (fun _ => a.core.keys), trk := trk } := by
+  unfold absOf
+  simp only [Spec.mk.injEq, and_true]
+  constructor
+  · apply List.ext_getElem?
+    intro j
+    simp only [Sys.cores, List.getElem?_map, Uplink.getElem?_setAt]
+    by_cases hj : j = idx
+    · subst hj; simp [hl0, hid]
+    · simp [hj]
+  · apply List.ext_getElem?
+    intro j
+    simp only [keysOf, specAt, Sys.cores, List.getElem?_map, List.getElem?_mapIdx, Uplink.getElem?_setAt]
+    by_cases hj : j = idx
+    · subst hj; simp [hl0]
+    · simp only [hj, if_false]
+      cases ls[j]? <;> rfl
+
+theorem specAt_self (ks : List (List Int)) (idx : Nat) (k : List Int) (h : ks[idx]? = some k) :
+    specAt ks idx (fun _ => k) = ks := by
+  apply List.ext_getElem?
+  intro j
+  simp only [specAt, List.getElem?_mapIdx]
+  by_cases hj : j = idx
+  · subst hj; simp [h]
+  · simp only [hj, if_false]
+    cases ks[j]? <;> rfl
+
+theorem uplinkTrace_eq (classic : Bool) (idx now : Nat) (data : Sys.Bytes) (pt : Nat) (inc : Sys.Incoming)
+    (hpt : Codec.getPacketTypeS data = some pt)
+    (hsacks : inc.sacks = if pt = 0x9100 then Codec.unChk [] (Codec.parseSrtlaAck data) else [])
+    (hacks : inc.acks = if pt = 0x8002 then (match Codec.unChk none (Codec.parseSrtAck data) with
+        | some a => [a]
+        | none => []) else [])
+    (hnaks : inc.naks = if pt = 0x8003 then Codec.unChk [] (Codec.parseSrtNak data) else []) :
+    uplinkTrace classic idx now data = armTrace pt idx now ++ fanTrace classic idx now inc := by
+  unfold uplinkTrace armTrace fanTrace
+  rw [hpt, hacks, hsacks, hnaks]
+  dsimp only
+  by_cases q1 : pt = 0x9202
+  · subst q1; simp
+  by_cases q2 : pt = 0x9210
+  · subst q2; simp
+  by_cases q3 : pt = 0x8002
+  · subst q3
+    simp only [if_true]
+    cases Codec.unChk none (Codec.parseSrtAck data) <;> simp
+  by_cases q4 : pt = 0x8003
+  · subst q4; simp
+  by_cases q5 : pt = 0x9100
+  · subst q5; simp
+  · simp [q1, q2, q3, q4, q5]
+
+/-- **C02 at shell level, an uplink datagram, exactly** (global spec, cross-link attribution included): from an
+invariant state, an `uplink` event arriving on the conn id of link `idx` takes the abstraction (conn ids, per-link
+key lists, tracker) EXACTLY to the fold of C02's spec machine `specStep` over `uplinkTrace` — the events the
+datagram decodes to.  So at shell level: a cumulative SRT ACK retires everything at or below it on EVERY link; each
+SRTLA-ACKed number is retired on the arrival link if it holds it, otherwise on the first other holder; each NAKed
+number is retired on the tracker's remembered present carrier (no fall-through), otherwise on the first holder;
+REG3 and REG_ERR empty the arrival link's set; every other datagram changes no set; no uplink datagram changes a
+conn id or the tracker.  (A datagram on an unknown conn id changes nothing at all: `Uplink.unknown_link`.) -/
+theorem C02_shell_uplink_refines (s : Sys.Sys F) (now cid : Nat) (data : Sys.Bytes) (idx : Nat) (hinv : ShellInv s)
+    (hidx : s.links.findIdx? (·.core.connId == cid) = some idx) :
+    absSys (Sys.step s (.uplink now cid data)).1 =
+      (uplinkTrace s.cfg.classic idx now data).foldl specStep (absSys s) := by
+  show absSys (Sys.handleUplinkPacket s cid data now).1 = _
+  by_cases hlen : data.length < 2
+  · rw [(Uplink.short_datagram s cid data now hlen).1]
+    have : Codec.getPacketTypeS data = none := by
+      match data, hlen with
+      | [], _ => rfl
+      | [x], _ => rfl
+    unfold uplinkTrace
+    rw [this]
+    rfl
+  obtain ⟨pt, hpt⟩ := Uplink.type_of_len data (by omega)
+  obtain ⟨l0, hl0, -⟩ := Uplink.findIdx_get s.links cid idx hidx
+  have hne : data ≠ [] := by intro h; subst h; simp at hlen
+  rw [Uplink.handleUplinkPacket_eq s cid data now idx l0 hne hidx hl0]
+  obtain ⟨-, -, hsacks, hacks, hnaks, -⟩ := Uplink.incoming_spec l0 idx s.reg s.clientKnown data now pt hpt
+  have hrun := arrival_run l0 idx s.reg s.clientKnown data now pt s.cfg.classic hpt
+  have hcases := Uplink.arrival_cases l0 idx s.reg s.clientKnown data now pt hpt
+  have hkl := Uplink.kaLink_spec l0 data now
+  generalize Uplink.arrival l0 idx s.reg s.clientKnown data now = arr at hrun hcases ⊢
+  generalize (Uplink.pupSpec l0 idx s.reg s.clientKnown data now).2.2 = inc at hsacks hacks hnaks ⊢
+  generalize (Uplink.pupSpec l0 idx s.reg s.clientKnown data now).2.1 = reg1
+  -- normal form of the left-hand side
+  have lhs : absSys (Sys.processConnectionEvents ({ s with links := Sys.setAt s.links idx arr, reg := reg1 } : Sys.Sys F)
+        idx inc now).1 =
+      absOf ((fanTrace s.cfg.classic idx now inc).foldl step
+        { links := Sys.cores (Sys.setAt s.links idx arr), trk := s.trk }) := by
+    unfold absSys
+    rw [pCE_toSt]
+    rfl
+  dsimp only
+  rw [lhs]
+  -- the arrival link after its arm
+  have hi0 : SysInv.LinkInv l0 := shellInv_all hinv l0 (List.mem_of_getElem? hl0)
+  have hia : LogInv arr.core := ((keys_run hrun) hi0).1.log
+  have hid : arr.core.connId = l0.core.connId := connId_run hrun
+  have hall : AllInv (Sys.cores (Sys.setAt s.links idx arr)) := by
+    intro c hc
+    obtain ⟨l, hl, rfl⟩ := List.mem_map.1 hc
+    unfold Sys.setAt at hl
+    rw [List.mem_mapIdx] at hl
+    obtain ⟨k, hk, rfl⟩ := hl
+    split
+    · exact hia
+    · exact (hinv _ (List.getElem_mem hk)).1
+  have hwf : ∀ e ∈ fanTrace s.cfg.classic idx now inc, wf e := by
+    intro e he
+    unfold fanTrace at he
+    simp only [List.mem_append, List.mem_map] at he
+    rcases he with (⟨_, _, rfl⟩ | ⟨_, _, rfl⟩) | ⟨_, _, rfl⟩ <;> trivial
+  have hk0 : (keysOf (Sys.cores s.links))[idx]? = some l0.core.keys := by
+    simp [keysOf, Sys.cores, hl0]
+  -- what the arm did to the abstraction
+  have harm : absOf { links := Sys.cores (Sys.setAt s.links idx arr), trk := s.trk } =
+      (armTrace pt idx now).foldl specStep (absSys s) := by
+    have same : arr.core.keys = l0.core.keys → pt ≠ 0x9202 → pt ≠ 0x9210 →
+        absOf { links := Sys.cores (Sys.setAt s.links idx arr), trk := s.trk } =
+          (armTrace pt idx now).foldl specStep (absSys s) := by
+      intro hk p1 p2
+      rw [abs_setAt s.links s.trk idx l0 arr hl0 hid, hk, specAt_self _ _ _ hk0]
+      unfold armTrace
+      rw [if_neg p1, if_neg p2]
+      rfl
+    rcases hcases with ⟨hp, h | h⟩ | ⟨hp, h⟩ | ⟨hp, h⟩ | ⟨hp, h⟩ | ⟨hp, h⟩ | ⟨h1, h2, h3, h4, h5, h⟩
+    · exact same (by rw [h]) (by omega) (by omega)
+    · exact same (by rw [h]; rfl) (by omega) (by omega)
+    · exact same (by rw [h]) (by omega) (by omega)
+    · rw [abs_setAt s.links s.trk idx l0 arr hl0 hid, show arr.core.keys = [] by rw [h]; rfl]
+      unfold armTrace
+      rw [if_pos hp]
+      rfl
+    · rw [abs_setAt s.links s.trk idx l0 arr hl0 hid, show arr.core.keys = [] by rw [h]; rfl]
+      unfold armTrace
+      rw [if_neg (by omega), if_pos hp]
+      rfl
+    · exact same (by rw [h]; exact SysDir.keys_congr hkl.2.1) (by omega) (by omega)
+    · exact same (by rw [h]; rfl) h3 h4
+  rw [(C02_refines _ _ hall hwf).1, harm, ← List.foldl_append,
+    uplinkTrace_eq s.cfg.classic idx now data pt inc hpt hsacks hacks hnaks]
+
+/-! ### Non-vacuity -/
+
+section examples
+
+/-- Toy scalar (`Lemmas/SelectFrame.lean`) used ONLY by the `example`s, to have concrete links. -/
+local instance exScalar : Scalar Int := Select.fixScalar
+
+/-- Link 0 (conn id 1): live, holds 5 and 7 (high-water mark 4), three data packets 9, 10, 11 QUEUED in a
+low-activity batch (threshold 4) — queued, so NOT in the set and not counted in flight.  Link 1 (conn id 2):
+live, holds a probe copy of 7.  The ring remembers conn id 2 for 7. -/
+def exShell : Sys.Sys Int :=
+  { links :=
+      [{ (FLink.newRegistering 1 0 : FLink Int) with
+          core := { connId := 1, connected := true, phase := .live, window := 20000, inFlight := 2,
+                    log := [(5, 100), (7, 120)], highestAcked := 4, lastReceived := some 4990 },
+          established := 1, regime := .low,
+          queue := [([0, 0, 0, 9, 0, 0, 0, 0], some 9, 4000), ([0, 0, 0, 10, 0, 0, 0, 0], some 10, 4001),
+                    ([0, 0, 0, 11, 0, 0, 0, 0], some 11, 4002)] },
+       { (FLink.newRegistering 2 0 : FLink Int) with
+          core := { connId := 2, connected := true, phase := .live, window := 20000, inFlight := 1,
+                    log := [(7, 125)], highestAcked := 4, lastReceived := some 4990 },
+          established := 1 }],
+    reg := Srtla.Reg.Reg.new [] [],
+    trk := Tracker.empty.insert 7 2 125 }
+
+theorem exShell_inv : ShellInv exShell := by
+  intro l hl
+  simp only [exShell, List.mem_cons, List.not_mem_nil, or_false] at hl
+  rcases hl with rfl | rfl
+  · refine ⟨⟨by decide, by decide, by decide⟩, by decide, by decide, by decide, ?_⟩
+    intro it hit sq hsq
+    simp only [List.mem_cons, List.not_mem_nil, or_false] at hit
+    rcases hit with rfl | rfl | rfl <;> (cases hsq; decide)
+  · refine ⟨⟨by decide, by decide, by decide⟩, by decide, by decide, by decide, ?_⟩
+    intro it hit
+    cases hit
+
+/-- (set, in-flight counter, queue length) per link. -/
+def exKeys (s : Sys.Sys Int) : List (List Int × Int × Nat) :=
+  s.links.map fun l => (l.core.keys, l.core.inFlight, l.queue.length)
+
+/-- Sends are registered at DRAIN time: the three queued packets are not in the set; the periodic flush
+(`C02_shell_flush_exact`) puts exactly them in, in queue order; a fourth client datagram reaches the threshold
+and drains all four; with an injected send failure the same event empties the link (reset after the failed send). -/
+example :
+    exKeys exShell = [([5, 7], 2, 3), ([7], 1, 0)] ∧
+    exKeys (Sys.step exShell (.flush 5000)).1 = [([5, 7, 9, 10, 11], 5, 0), ([7], 1, 0)] ∧
+    exKeys (Sys.step exShell (.client 5000 [0, 0, 0, 12, 0, 0, 0, 0, 1, 2])).1 = [([5, 7, 9, 10, 11, 12], 6, 0), ([7], 1, 0)] ∧
+    exKeys (Sys.step (Sys.step exShell (.failNext 1)).1 (.client 5000 [0, 0, 0, 12, 0, 0, 0, 0, 1, 2])).1 =
+      [([], 0, 0), ([7], 1, 0)] := by
+  decide +kernel
+
+/-- Cross-link attribution (`C02_shell_uplink_refines`): a NAK of 5, 7, 7 arriving on link 0 — 5 is retired on
+link 0 (first holder), 7 on link 1 (the carrier the ring remembers), NOT on link 0 which also holds it; the
+repeated 7 retires nothing.  An SRTLA ACK of 7 arriving on link 0 retires it on the arrival link.  A cumulative
+SRT ACK of 7 retires 5 and 7 on EVERY link.  The spec fold gives the same sets. -/
+example :
+    let nak : Sys.Bytes := [0x80, 0x03, 0, 0, 0, 0, 0, 5, 0, 0, 0, 7, 0, 0, 0, 7]
+    let sack : Sys.Bytes := [0x91, 0x00, 0, 0, 0, 0, 0, 7]
+    let ack : Sys.Bytes := [0x80, 0x02, 0, 0, 0, 0, 0, 0, 0, 0, 0, 0, 0, 0, 0, 0, 0, 0, 0, 7]
+    exShell.links.findIdx? (·.core.connId == 1) = some 0 ∧
+    exKeys (Sys.step exShell (.uplink 200 1 nak)).1 = [([7], 1, 3), ([], 0, 0)] ∧
+    ((uplinkTrace false 0 200 nak).foldl specStep (absSys exShell)).keys = [[7], []] ∧
+    exKeys (Sys.step exShell (.uplink 200 1 sack)).1 = [([5], 1, 3), ([7], 1, 0)] ∧
+    ((uplinkTrace false 0 200 sack).foldl specStep (absSys exShell)).keys = [[5], [7]] ∧
+    exKeys (Sys.step exShell (.uplink 200 1 ack)).1 = [([], 0, 3), ([], 0, 0)] ∧
+    ((uplinkTrace false 0 200 ack).foldl specStep (absSys exShell)).keys = [[], []] := by
+  decide +kernel
+
+/-- Instances of the theorems on `exShell`. -/
+example (evs : List Sys.Ev) (j : Nat) (l : FLink Int) (hl : exShell.links[j]? = some l) :=
+  C02_shell_refines exShell evs exShell_inv j l hl
+
+example (now cid : Nat) (data : Sys.Bytes) (idx : Nat)
+    (hidx : exShell.links.findIdx? (·.core.connId == cid) = some idx) :=
+  C02_shell_uplink_refines exShell now cid data idx exShell_inv hidx
+
+example := C02_shell_flush_exact exShell 5000 0 _ rfl
+
+/-- A shell-visible history (`RunHist`) for link 0 over the run [flush, NAK of 5]: the flush block is the three
+sends, the NAK block one retirement; its fold over the initial set [5, 7] is the final set [7, 9, 10, 11]. -/
+example : [KOp.send 9, .send 10, .send 11, .retire 5].foldl kstep [5, 7] = [7, 9, 10, 11] ∧
+    ((Sys.run exShell [.flush 5000, .uplink 5001 1 [0x80, 0x03, 0, 0, 0, 0, 0, 5]]).1.links.map (·.core.keys)) =
+      [[7, 9, 10, 11], [7]] := by
+  decide +kernel
+
+end examples
+
+end shellC02
 
 end Srtla.Props.C02
